@@ -1205,10 +1205,11 @@ def executeTplUnbuffered : Nat → Nat → Env → XM Unit
     match newCtx.find? (fun kv => !identOk kv.1) with
     | some _ => xerr "context-key is not a valid identifier"
     | none =>
-      match newCtx.find? (fun kv => (tpl.exported.lookup kv.1).isSome) with
+      -- the exported macros of the template and of every template it extends (fix D66)
+      let chain := chainOf st.cs.tpls (st.cs.tpls.size + 1) ti
+      match newCtx.find? (fun kv => chain.any fun i => ((st.cs.tpls[i]!).exported.lookup kv.1).isSome) with
       | some _ => xerr "context key name clashes with macro"
       | none =>
-        let chain := chainOf st.cs.tpls (st.cs.tpls.size + 1) ti
         let root := st.cs.tpls[chain.headD ti]!
         -- a new ExecutionContext: the per-execution state of cycle/ifchanged starts empty
         -- and the state of the surrounding execution is untouched
